@@ -309,6 +309,70 @@ def run(chk):
                 chk.violation('impl-vs-spec', {'call': call, 'declared return type': ret}, {'result': repr(res)[:200], 'matches': ok})
             chk.nontrivial.add('sigsweep:' + call)
     chk.distribution['successful calls checked against the declared return type'] = nsig
+    # ---------------- 4c. function conversion rules (XPath 3.1 3.1.5.2) on every registered function with an atomic parameter:
+    #   (i) a node argument is atomized: f(node) = f(xs:untypedAtomic(string(node)));
+    #   (ii) an untyped argument is cast to the declared parameter type (xs:double for xs:numeric): f(untyped s) = f(T(s)).
+    # Both sides are evaluated by the implementation; errors are compared as errors (any code), values with their types.
+    import itertools as _it
+    doc5 = ET.ElementTree(ET.XML('<r a="1" e="" z=" 2 "><n>42</n><s>abc</s><d>2000-01-01</d><f>1.5</f><b>true</b><e/></r>'))
+    NODES = [('/r/n', '42'), ('/r/@a', '1'), ('/r/s', 'abc'), ('/r/d', '2000-01-01'), ('/r/f', '1.5'), ('/r/n/text()', '42'), ('/r/b', 'true'), ('/r/e', ''), ('/r/@z', ' 2 ')]
+    VALS = {'xs:double': ['4.5', '-2', 'abc', 'NaN', ' 7 '], 'xs:numeric': ['4.5', '-2', 'abc', ' 7 '], 'xs:string': ['abc', '4.5', ''], 'xs:integer': ['42', '-3', '4.5', 'abc'],
+            'xs:decimal': ['4.5', 'abc'], 'xs:float': ['4.5', 'abc'], 'xs:date': ['2000-01-01', 'abc'], 'xs:dateTime': ['2000-01-01T10:00:00', 'abc'], 'xs:time': ['10:00:00', 'abc'],
+            'xs:duration': ['P1Y', 'abc'], 'xs:dayTimeDuration': ['PT1H', 'abc'], 'xs:yearMonthDuration': ['P1Y', 'abc'], 'xs:boolean': ['true', 'abc', '1'], 'xs:anyURI': ['abc']}
+    OTHER = ["1", "'a'", "2.5", "'abc'", "()", "true()", "xs:dayTimeDuration('PT1H')", "'en'", "xs:date('2000-01-01')"]
+    SKIPC = SKIPF | {'current-dateTime', 'current-date', 'current-time', 'id', 'idref', 'element-with-id', 'lang', 'root', 'path', 'generate-id', 'has-children', 'innermost',
+                     'outermost', 'nilled', 'node-name', 'name', 'local-name', 'namespace-uri', 'base-uri', 'document-uri', 'data', 'string', 'number', 'boolean', 'not',
+                     'count', 'exists', 'empty', 'reverse', 'head', 'tail', 'one-or-more', 'zero-or-one', 'exactly-one', 'unordered', 'deep-equal', 'position', 'last',
+                     'parse-xml', 'parse-xml-fragment', 'json-to-xml', 'analyze-string', 'parse-json', 'parse-ietf-date', 'function-lookup'}
+
+    def run5(call):
+        try:
+            r = parser.parse(call).evaluate(XPathContext(doc5))
+        except ElementPathError:
+            return ('err',)
+        except Exception as ex:
+            return ('exc', type(ex).__name__)      # foreign exceptions are the subject of C03
+        r = r if isinstance(r, list) else [r]
+        return ('ok', [(type(x).__name__, str(x)) for x in r])
+
+    seen5 = set()
+    nconv = 0
+    for (qname, arity), sig in sorted(parser.function_signatures.items(), key=lambda kv: (kv[0][0].namespace or '', kv[0][0].local_name, kv[0][1])):
+        pre = NSP.get(qname.namespace)
+        if pre is None or pre in ('map:', 'array:', 'xs:') or qname.local_name in SKIPC or arity not in (1, 2, 3) or (qname, arity) in seen5:
+            continue
+        seen5.add((qname, arity))
+        params = sig[sig.index('(') + 1:sig.rindex(') as ')].split(', ')
+        fname = pre + qname.local_name
+        for pos in range(arity):
+            pt = params[pos] if pos < len(params) else ''
+            if any(k in pt for k in ('node()', 'item()', 'element', 'function', 'map(', 'array(', 'document-node', 'attribute', 'QName')) or not pt:
+                continue
+            rests = list(_it.islice(_it.product(*([OTHER] * (arity - 1))), 0, 1 if arity == 1 else 9 if arity == 2 else 12))
+            if quick and len(rests) > 3:
+                rests = rng.sample(rests, 3)
+            pairs = [(node, f"xs:untypedAtomic('{sv}')", 'atomization') for node, sv in NODES]
+            base = pt.rstrip('?*+')
+            target = 'xs:double' if base == 'xs:numeric' else base
+            pairs += [(f"xs:untypedAtomic('{sv}')", f"{target}('{sv}')", 'untyped -> ' + target) for sv in VALS.get(base, [])]
+            for lhs, rhs, rule in pairs:
+                for rest in rests:
+                    a1, a2 = list(rest), list(rest)
+                    a1.insert(pos, lhs)
+                    a2.insert(pos, rhs)
+                    c1, c2 = f"{fname}({', '.join(a1)})", f"{fname}({', '.join(a2)})"
+                    chk.evaluations += 1
+                    r1, r2 = run5(c1), run5(c2)
+                    if r1[0] == 'exc' or r2[0] == 'exc':
+                        continue
+                    nconv += 1
+                    chk.count('conversion-rules:' + rule.split(' ')[0])
+                    if r1 != r2:
+                        chk.violation('impl-vs-spec', {'call': c1, 'equivalent call': c2, 'rule': rule, 'parameter type': pt},
+                                      {'result': repr(r1)[:200], 'result of the equivalent call': repr(r2)[:200]})
+                    elif r1[0] == 'ok':
+                        chk.nontrivial.add('conv:' + c1)
+    chk.distribution['function conversion pairs compared'] = nconv
     chk.rule = ('every constructible atomic type against every atomic type; seeded sequences of 0-3 typed items x occurrence x target type through '
                 'instance of (with spacing variants), treat as and match_sequence_type; all occurrence x occurrence x 10 x 10 type pairs through '
                 'is_sequence_type_restriction; a table of kind / map / array / function tests; ~170 built-in function calls against their declared '
